@@ -4,6 +4,7 @@ package main
 import (
 	"fmt"
 	"os"
+	"runtime/pprof"
 	"strconv"
 	"strings"
 
@@ -45,10 +46,17 @@ func main() {
 		fmt.Printf("INTERNAL-ERROR: no check %q in this binary (have: %s)\n", id, strings.Join(core.IDs(), " "))
 		os.Exit(2)
 	}
+	if f := os.Getenv("VERIF_CPUPROF"); f != "" {
+		fh, _ := os.Create(f)
+		pprof.StartCPUProfile(fh)
+		defer pprof.StopCPUProfile()
+	}
 	c := core.NewCtx(p, tier, seed)
 	if replay != "" {
 		os.Exit(c.ReplayFile(replay))
 	}
 	p.Run(c)
-	os.Exit(c.Finish())
+	rc := c.Finish()
+	pprof.StopCPUProfile()
+	os.Exit(rc)
 }
